@@ -90,10 +90,14 @@ def feeds (p : Program E B G P A) (i j : Nat) : Bool :=
   | some ri, some rj => ri.headRels.any fun h => rj.bodyRels.contains h
   | _, _ => false
 
-/-- reachability in at most `fuel` steps (fuel = number of rules suffices) -/
-def reaches (p : Program E B G P A) : Nat → Nat → Nat → Bool
-  | 0, i, j => i == j
-  | fuel + 1, i, j => i == j || (List.range p.rules.length).any fun k => feeds p i k && reaches p fuel k j
+/-- the rules reachable from the visited set, breadth first (fuel = number of rules suffices) -/
+def reachFrom (p : Program E B G P A) : Nat → List Nat → List Nat
+  | 0, vis => vis
+  | fuel + 1, vis =>
+    let nxt := (List.range p.rules.length).filter fun j => !vis.contains j && vis.any fun k => feeds p k j
+    if nxt.isEmpty then vis else reachFrom p fuel (vis ++ nxt)
+
+def reaches (p : Program E B G P A) (fuel i j : Nat) : Bool := (reachFrom p fuel [i]).contains j
 
 def sameScc (p : Program E B G P A) (i j : Nat) : Bool :=
   reaches p p.rules.length i j && reaches p p.rules.length j i
